@@ -55,7 +55,7 @@ def generate(rng, tier):
             "read_script": rng.choice([None, {"chunk": "random", "seed": rng.getrandbits(16)}, {"chunk": "prime"}]),
             "write_fault": rng.choice([{"enospc_after": rng.randint(0, 1500)}, {"eio_after": rng.randint(0, 1500)}]) if rng.random() < 0.2 else None,
             "read_fault": rng.random() if rng.random() < 0.2 else None,
-            "pathkind": rng.choice(["std", "std", "odd_ext", "pathlib"]), "same_handle": rng.random() < 0.3}
+            "pathkind": rng.choice(["std", "std", "odd_ext", "pathlib", "dotted"]), "same_handle": rng.random() < 0.3}
     # hand-made text
     n = rng.randint(1, 8)
     hcell = geom.make_cell(rng, rng.choice(["ortho", "tri_pos", "tri_neg", "tri_mixed"]), rng.uniform(5, 12), [], roomy=(1.0, 1.5))
@@ -84,7 +84,7 @@ def circ(a, b):
 
 
 def _save(ctx, fs, real, via, name, fract, pathkind="std"):
-    path = "/sim/%s.cif" % name if pathkind != "odd_ext" else "/sim/%s.cif.%s" % (name, ("bak", "lmpdat", "1", "txt")[len(name) % 4])
+    path = ("/sim/%s.rev.1.cif" if pathkind == "dotted" else "/sim/%s.cif") % name if pathkind != "odd_ext" else "/sim/%s.cif.%s" % (name, ("bak", "lmpdat", "1", "txt")[len(name) % 4])
     try:
         if via == "path":
             if pathkind == "odd_ext":
